@@ -60,6 +60,10 @@ theorem parseScheme_inv {n : Nat} {p : Parser} (h : PInv n p) (hs : p.state = .o
     show PInv n (if _ then _ else _) ∧ _
     by_cases h1 : (p.rest.drop (i + 1)).head? = some 47
     · simp only [h1, if_true]
+      by_cases hdl : (p.rest.take i).any isSchemeDelim = true
+      · simp only [hdl, if_true]
+        exact ⟨⟨h.uri, fun _ => hc⟩, by simp⟩
+      simp only [hdl, Bool.false_eq_true, if_false]
       have hu : Inside { p.uri with scheme := some ⟨p.off, i⟩ } n :=
         { h.uri with scheme := by simp only [vin_some]; omega }
       by_cases h2 : (List.take 3 ({ p with uri := { p.uri with scheme := some ⟨p.off, i⟩ } }.advance i).rest) = ([58, 47, 47] : Bytes)
@@ -183,6 +187,23 @@ theorem parseAuthBody_inv {n : Nat} (p : Parser) (aoff : Nat) (a : Bytes) (hu : 
       simp only at hp
       exact ⟨{ hu' with host := by simp only [vin_some]; omega }, Or.inl rfl, rfl, rfl⟩
 
+theorem authorityUpTo_inv {n : Nat} {p : Parser} (h : PInv n p) (hc : p.off + p.rest.length = n) (i : Nat)
+    (hi : i < p.rest.length) (next : PState) :
+    PInv n (authorityUpTo p i next) ∧
+    ((authorityUpTo p i next).state = next ∨ (authorityUpTo p i next).state = .error) := by
+  unfold authorityUpTo
+  have hu : Inside { p.uri with authority := some ⟨p.off, i⟩ } n :=
+    { h.uri with authority := by simp only [vin_some]; omega }
+  have := parseAuthBody_inv
+    ({ p with uri := { p.uri with authority := some ⟨p.off, i⟩ }, state := next }.advance i) p.off (p.rest.take i)
+    (by simpa [Parser.advance] using hu) (by simp only [List.length_take]; omega)
+  obtain ⟨a, b, c, d⟩ := this
+  refine ⟨⟨a, fun _ => ?_⟩, ?_⟩
+  · rw [c, d]; simp only [Parser.advance, List.length_drop]; omega
+  · rcases b with b | b
+    · exact Or.inl (by rw [b]; rfl)
+    · exact Or.inr b
+
 theorem parseAuthority_inv {n : Nat} {p : Parser} (h : PInv n p) (hs : p.state = .onAuthority) :
     PInv n (parseAuthority p) ∧
     ((parseAuthority p).state = .finished ∨ (parseAuthority p).state = .onPath ∨
@@ -213,31 +234,25 @@ theorem parseAuthority_inv {n : Nat} {p : Parser} (h : PInv n p) (hs : p.state =
     | some j =>
       have ⟨hj, _, _⟩ := memchr_some h63
       simp only
-      have hu : Inside { p.uri with authority := some ⟨p.off, j⟩ } n :=
-        { h.uri with authority := by simp only [vin_some]; omega }
-      have := parseAuthBody_inv
-        ({ p with uri := { p.uri with authority := some ⟨p.off, j⟩ }, state := .onQuery }.advance j) p.off (p.rest.take j)
-        (by simpa [Parser.advance] using hu) (by simp only [List.length_take]; omega)
-      obtain ⟨a, b, c, d⟩ := this
-      refine ⟨⟨a, fun _ => ?_⟩, ?_⟩
-      · rw [c, d]; simp only [Parser.advance, List.length_drop]; omega
-      · rcases b with b | b
-        · exact Or.inr (Or.inr (Or.inl (by rw [b]; rfl)))
-        · exact Or.inr (Or.inr (Or.inr b))
+      have ⟨a, b⟩ := authorityUpTo_inv h hc j hj .onQuery
+      exact ⟨a, by rcases b with b | b; exact Or.inr (Or.inr (Or.inl b)); exact Or.inr (Or.inr (Or.inr b))⟩
   | some i =>
     have ⟨hi, _, _⟩ := memchr_some h47
-    simp only
-    have hu : Inside { p.uri with authority := some ⟨p.off, i⟩ } n :=
-      { h.uri with authority := by simp only [vin_some]; omega }
-    have := parseAuthBody_inv
-      ({ p with uri := { p.uri with authority := some ⟨p.off, i⟩ }, state := .onPath }.advance i) p.off (p.rest.take i)
-      (by simpa [Parser.advance] using hu) (by simp only [List.length_take]; omega)
-    obtain ⟨a, b, c, d⟩ := this
-    refine ⟨⟨a, fun _ => ?_⟩, ?_⟩
-    · rw [c, d]; simp only [Parser.advance, List.length_drop]; omega
-    · rcases b with b | b
-      · exact Or.inr (Or.inl (by rw [b]; rfl))
-      · exact Or.inr (Or.inr (Or.inr b))
+    cases h63 : memchr 63 p.rest with
+    | none =>
+      simp only
+      have ⟨a, b⟩ := authorityUpTo_inv h hc i hi .onPath
+      exact ⟨a, by rcases b with b | b; exact Or.inr (Or.inl b); exact Or.inr (Or.inr (Or.inr b))⟩
+    | some j =>
+      have ⟨hj, _, _⟩ := memchr_some h63
+      simp only
+      by_cases hij : i < j
+      · simp only [hij, if_true]
+        have ⟨a, b⟩ := authorityUpTo_inv h hc i hi .onPath
+        exact ⟨a, by rcases b with b | b; exact Or.inr (Or.inl b); exact Or.inr (Or.inr (Or.inr b))⟩
+      · simp only [hij, if_false]
+        have ⟨a, b⟩ := authorityUpTo_inv h hc j hj .onQuery
+        exact ⟨a, by rcases b with b | b; exact Or.inr (Or.inr (Or.inl b)); exact Or.inr (Or.inr (Or.inr b))⟩
 
 /-! ### path, query -/
 
